@@ -831,6 +831,10 @@ class Layout:
         """
 
         if self.origin:
+            if not self.origin.is_relative():
+                # 90 - <a length in pixels> is not a percentage
+                raise ValueError("Units must be relativized before extent "
+                                 "can be calculated based on origin.")
             # Calculated values to be used if replacement is needed
             diff_horizontal = Size(90 - self.origin.x.value, UnitEnum.PERCENT)
             diff_vertical = Size(95 - self.origin.y.value, UnitEnum.PERCENT)
@@ -849,7 +853,7 @@ class Layout:
                 found_absolute_unit = False
                 if bottom_right.x.unit != UnitEnum.PERCENT:
                     found_absolute_unit = True
-                elif bottom_right.x.unit != UnitEnum.PERCENT:
+                elif bottom_right.y.unit != UnitEnum.PERCENT:
                     found_absolute_unit = True
 
                 if found_absolute_unit:
